@@ -482,7 +482,10 @@ def run(ctx):
                         i_obs["files"] = i_obs["files"] + ["<%s does not hold the canonical encoding of the acquired key>" % n]
             if o["panics"] or not o["alive"]:
                 i_obs["panics"] = o["panics"]
-            if m_obs != i_obs:
+            # the rules dump (a support log file) is not something the property's observers see: counted, not compared
+            m_cmp = {k2: v for k2, v in m_obs.items() if k2 != "dumped"}
+            i_cmp = {k2: v for k2, v in i_obs.items() if k2 != "dumped"}
+            if m_cmp != i_cmp:
                 bad_histories.add(h["id"])
                 if len(disagreements) < 50:
                     disagreements.append({"case": {"history": h, "step": i}, "model": m_obs, "impl": i_obs})
